@@ -15,3 +15,7 @@ def main(tier, seed):
 
 RULE_EXTRA = 'evaluation counter vs real cost calls after EVERY op; evaluation monitor content vs calls; callback log; wrapper funcalls.'
 TRUSTED_EXTRA = ['callback and monitor objects: implementation monitor only; control loop replayed by the Lean Ctl model for all four solvers']
+
+
+def replay(path):
+    return solvercheck.replay(PID, path)
